@@ -22,10 +22,10 @@ Theorem C24_resolve_tokens : forall p,
   sh_lex (line OResolve p) = Some [W "test"; W "-e"; W p; Op "&&"; W "readlink"; W "-f"; W p].
 Proof. exact resolve_tokens. Qed.
 
-(* checksum: test -f p && sha1sum p | awk '{print $1}'  — whole line, the path verbatim twice *)
+(* checksum: test -f p && sha1sum < p | awk '{print $1}'  — whole line, the path verbatim twice *)
 Theorem C24_checksum_tokens : forall p,
   sh_lex (line OChecksum p) =
-  Some [W "test"; W "-f"; W p; Op "&&"; W "sha1sum"; W p; Op "|"; W "awk"; W "{print $1}"].
+  Some [W "test"; W "-f"; W p; Op "&&"; W "sha1sum"; Op "<"; W p; Op "|"; W "awk"; W "{print $1}"].
 Proof. exact checksum_tokens. Qed.
 
 (* write_text: tee p > /dev/null *)
